@@ -65,6 +65,9 @@ def c16_1(c: Ctx) -> None:
                 c.fail(c.unit(SVC, 'EventBus.wait_until_idle'), f'wait_until_idle is not bounded by its timeout: {why_wui[0]}', 'stop(timeout=t) can take longer than t (or forever)', node=a)
             else:
                 c.ok(where(u, a), f'awaits wait_until_idle(timeout={U(to)}) only with a non-None timeout; wait_until_idle is bounded by it')
+        elif isinstance(v, ast.Call) and U(v.func) == 'asyncio.wait_for' and v.args and isinstance(v.args[0], (ast.Name, ast.Attribute)):
+            c.fail(u, f'stop() awaits {U(v)[:60]}: wait_for on a task object', 'at the deadline wait_for cancels the task and then waits until it has really finished: a run loop whose handler reacts slowly to '
+                   'cancellation (an await in `finally`, a swallowed CancelledError) keeps stop() blocked without bound (asyncio.wait({task}, timeout) returns at the deadline)', node=a)
         elif isinstance(v, ast.Call) and U(v.func) in ('asyncio.wait', 'asyncio.wait_for'):
             to = q.kw(v, 'timeout')
             if isinstance(to, ast.Constant) and isinstance(to.value, (int, float)):
@@ -84,11 +87,19 @@ def c16_2(c: Ctx) -> None:
     self_ = u.params()[0]
     from sa.cfg import search
 
-    waits = [n for n in g.live_nodes() if q.node_has_await(n) and '_runloop_task' in U(n.ast) and n.kind == 'stmt']
+    task_names = {'_runloop_task'}
+    for n in own_nodes(u.node):
+        if isinstance(n, ast.Assign):
+            tg, val = n.targets[0], n.value
+            pairs = list(zip(tg.elts, val.elts)) if isinstance(tg, ast.Tuple) and isinstance(val, ast.Tuple) and len(tg.elts) == len(val.elts) else [(tg, val)]
+            for t_, v_ in pairs:
+                if isinstance(t_, ast.Name) and '_runloop_task' in U(v_):
+                    task_names.add(t_.id)
+    waits = [n for n in g.live_nodes() if q.node_has_await(n) and any(t in U(n.ast) for t in task_names) and n.kind == 'stmt']
     c.floor(len(waits), 1, 'wait on the run-loop task in stop()')
     offs = {n.id for n in g.live_nodes() if n.kind == 'stmt' and isinstance(n.ast, ast.Assign) and U(n.ast.targets[0]) == f'{self_}._is_running' and isinstance(n.ast.value, ast.Constant) and n.ast.value.value is False}
     shuts = [n for n in g.live_nodes() if any(call_name(x) == 'shutdown' for x in q.node_calls(n))]
-    cancels = [n for n in g.live_nodes() if any(call_name(x) == 'cancel' and '_runloop_task' in U(x.func.value) for x in q.node_calls(n))]
+    cancels = [n for n in g.live_nodes() if any(call_name(x) == 'cancel' and any(t in U(x.func.value) for t in task_names) for x in q.node_calls(n))]
     for wn in waits:
         p = search([(g.entry, ())], is_target=lambda n, d: n is wn, is_barrier=lambda n, d: n.id in offs)
         if p is None and offs:
@@ -103,8 +114,9 @@ def c16_2(c: Ctx) -> None:
             c.ok(where(u, wn.ast), 'event_queue.shutdown() precedes the wait (a blocked get() is released)')
         else:
             c.fail(u, 'wait on the run-loop task reachable without event_queue.shutdown()', 'the run loop stays blocked in queue.get() while stop() waits', node=wn.ast)
-        p = q.pair_search(g, wn, lambda n: n in cancels, exc_ok=lambda e: False)
-        if p is None and cancels:
+        implicit = any(call_name(x) == 'wait_for' for x in q.node_calls(wn))  # wait_for cancels the awaited task itself at the deadline (C16.1 judges its boundedness)
+        p = None if implicit else q.pair_search(g, wn, lambda n: n in cancels, exc_ok=lambda e: False)
+        if p is None and (cancels or implicit):
             c.ok(where(u, wn.ast), 'the run-loop task is cancelled after the bounded wait on every path')
         else:
             c.fail(u, 'run-loop task not cancelled after the wait on some path', 'a hanging run loop (handler mid-flight) survives stop()', node=wn.ast, witness=c.path(wn, p) if p else [])
